@@ -7,6 +7,7 @@ import (
 	"encoding/json"
 	"fmt"
 	"os"
+	"path"
 	"path/filepath"
 	"sort"
 	"strings"
@@ -170,6 +171,12 @@ func (p *Parser) ParseFromFs(filename string, fs afero.Fs) (*sysl.Module, error)
 	if err != nil {
 		return nil, err
 	}
+	if _, chrooted := fs.(*syslutil.ChrootFs); chrooted && !syslutil.IsRemoteImport(filename) {
+		// Inside a project root "/a.sysl" and "a.sysl" name the same file, and imports are always
+		// resolved to the relative form, so use it for the root module too (otherwise a file that
+		// imports the root module back compiles it a second time).
+		filename = strings.TrimLeft(path.Clean("/"+cleanImportFilename(filename)), "/")
+	}
 	return p.Parse(filename, r)
 }
 
@@ -211,6 +218,10 @@ func fileNameToIndex(filename string) retrievedListIndex {
 	i := strings.Index(ret, "@")
 	if i > -1 {
 		ret = ret[:i]
+	}
+	// Different spellings of one path ("./a.sysl", "sub/../a.sysl") are the same file
+	if !syslutil.IsRemoteImport(ret) {
+		ret = path.Clean(ret)
 	}
 
 	return retrievedListIndex(ret)
